@@ -535,6 +535,8 @@ var (
 	unitFinite = []uint64{1, 2}
 	unitCosts  = []uint64{1, 2, costInf}
 	unitNames  = []string{"/p1", "/ndn/r2/32=DV"}
+	// names at the edges of the name space (see fib-steps-names)
+	unitBoundaryNames = []string{"/", "/8=", "/p1/x"}
 )
 
 // unitDefs: the component-level configurations (bounds per tier).
@@ -557,11 +559,22 @@ func unitDefs(thorough bool) (names []string, defs map[string]unitDef) {
 		"fib-pass-nodedup": {names: unitNames[:1], lists: [][][]fe{two}, atomic: true, depth: 3, dedup: false,
 			what: "one name, every history of 3 whole passes (absent or a list of <= 2 raw entries / one pair over faces {5,6}), every history expanded (no canonical-state merging)"},
 	}
-	names = []string{"fib-steps", "fib-steps-two", "fib-steps-prevcost", "fib-pass-nodedup"}
+	// boundary names: the zero-component default prefix "/", a name whose only component is empty, a
+	// name that extends another name of the pass; whole-name removal (sweep) and per-face removal for each
+	tiny := unionLists(rawLists(unitFaces[:2], []uint64{1, costInf}, 1), pairLists(unitFaces[:2], unitFinite[:1], 1))
+	defs["fib-steps-names"] = unitDef{names: unitBoundaryNames, lists: [][][]fe{tiny, tiny, tiny}, depth: 40, dedup: true,
+		what: "three boundary names (\"/\" with zero components, \"/8=\" one empty component, \"/p1/x\"), each: every list of <= 1 raw entry over faces {5,6} x costs {1,16} and every single (best, second-best) pair at cost 1 over faces {5,6}"}
+	names = []string{"fib-steps", "fib-steps-two", "fib-steps-prevcost", "fib-pass-nodedup", "fib-steps-names"}
 	if thorough {
 		defs["fib-steps-rich-two"] = unitDef{names: unitNames, lists: [][][]fe{rich, mid}, depth: 40, dedup: true,
 			what: "name A: as in fib-steps; name B: as in fib-steps-two"}
 		names = append(names, "fib-steps-rich-two")
+		dn := defs["fib-steps-names"]
+		dn.names = []string{"/", "/8=", "/p1", "/p1/x"}
+		dn.lists = append(dn.lists, dn.lists[0])
+		dn.what = "as fib-steps-names with four names: \"/\", \"/8=\", \"/p1\" and its extension \"/p1/x\""
+		defs["fib-steps-names4"] = dn
+		names = append(names, "fib-steps-names4")
 		d := defs["fib-pass-nodedup"]
 		d.depth = 4
 		d.what = strings.Replace(d.what, "3 whole passes", "4 whole passes", 1)
